@@ -13,6 +13,32 @@ import sfsproj
 import sfsrun
 
 import sfscorpus
+import sfsgen
+
+
+def handbuilt(tier, seed):
+    """(G) spec/SFSGen.tla: well-formed specifications that are not derived from any block; (D) greedy_from_json on each"""
+    if tier == "quick":
+        gens = sfsgen.generate(2, 2, 2)
+        specs = corpus.sample(gens, 5000, seed) + sfsgen.generate(2, 4, 2, simulate=(2500, 6), seed=seed)
+    else:
+        specs = sfsgen.generate(2, 2, 2) + corpus.sample(sfsgen.generate(1, 3, 1, timeout=3000), 60000, seed) \
+                + sfsgen.generate(2, 4, 2, simulate=(20000, 6), seed=seed) + sfsgen.generate(3, 5, 3, simulate=(10000, 7), seed=seed + 1)
+    cmds = [{"cmd": "greedy", "sfs": {k: v for k, v in js.items() if not k.startswith("_")}} for _, js in specs]
+    res = pool.run_matrix([(["-greedy"], cmds)], timeout=20)[0] if cmds else []
+    out = []
+    cnt = {"specs": len(specs), "greedy_ok": 0, "greedy_error": 0, "greedy_exc": 0, "killed": 0}
+    for (key, js), r in zip(specs, res):
+        if r.get("killed"):
+            cnt["killed"] += 1
+        elif "exc" in r or "worker_exc" in r:
+            cnt["greedy_exc"] += 1
+        elif r.get("error") != 0 or r.get("ids") is None:
+            cnt["greedy_error"] += 1
+        else:
+            cnt["greedy_ok"] += 1
+            out.append((js, r["ids"]))
+    return out, cnt
 
 
 def run(tier):
@@ -26,6 +52,10 @@ def run(tier):
             continue
         cases.append({"id": len(cases) + 1, "sfs": r["sfs"], "ids": sfsproj.proj_ids(r["ids"]), "maxlen": 0, "maxstack": 0,
                       "_raw": r["raw"], "_ids": r["ids"], "_opt": r["opt"], "_block": r["block"]})
+    hb, hcnt = handbuilt(tier, seed)
+    for js, ids in hb:
+        cases.append({"id": len(cases) + 1, "sfs": sfsproj.proj_sfs(js), "ids": sfsproj.proj_ids(ids), "maxlen": 0, "maxstack": 0,
+                      "_raw": {k: v for k, v in js.items() if not k.startswith("_")}, "_ids": ids, "_opt": "hand-built", "_block": "hand-built: " + js["_shape"]})
     verdicts, st = sfsrun.run_traces([{k: v for k, v in c.items() if not k.startswith("_")} for c in cases])
     viol = [(c, ("violates", verdicts[c["id"]][1], verdicts[c["id"]][0])) for c in cases if c["id"] in verdicts]
     out = findings.settle("C04", viol, lambda c: {"block": c["_block"], "options": c["_opt"], "ids": c["_ids"], "sfs": c["_raw"],
@@ -40,7 +70,7 @@ def run(tier):
            "evaluations": cnt["specs"], "distinct_nontrivial": nontrivial,
            "rule": "one evaluation = one sub-block specification handed to greedy_from_json; distinct = distinct (specification, id sequence); "
                    "non-trivial = sequence of at least 2 ids",
-           "driver": cnt, "corpus": gstats, "option_sets": setnames, "violating": len(viol),
+           "driver": cnt, "corpus": gstats, "hand_built_specifications": hcnt, "option_sets": setnames, "violating": len(viol),
            "exhaustive": False}
     return {"level": "model_checking", "coverage": cov, "violations": out, "wall": time.time() - t0,
-            "assumptions": ["only error=0 results are judged", "dependency pair <a,b>: a executed before b, and a never executed after b"]}
+            "assumptions": ["only error=0 results are judged", "hand-built specifications: every result is used, no two instructions with the same operator and operands, dependency pairs only between accesses of one domain of which one is a store (spec/SFSGen.tla)", "dependency pair <a,b>: a executed before b, and a never executed after b"]}
